@@ -65,6 +65,18 @@ type world struct {
 	sierraV1  []felt.Felt               // Sierra classes declared under protocol < 0.14.1 and not migrated yet
 	classes   []felt.Felt               // every declared class hash
 	casmV2    map[felt.Felt]felt.Felt   // Sierra class -> its V2 compiled class hash
+	// for the inapplicable-diff offers (filled for every world; maps keyed by class hash)
+	casmV1   map[felt.Felt]felt.Felt         // Sierra class -> its V1 compiled class hash
+	defs     map[felt.Felt]*core.SierraClass // Sierra class -> its definition
+	casmNow  map[felt.Felt]felt.Felt         // declared Sierra class -> the compiled class hash its trie leaf holds now
+	sierra   []felt.Felt                     // every declared Sierra class, oldest first
+	migrated []felt.Felt                     // classes whose compiled class hash was migrated, oldest first
+	plain    []felt.Felt                     // contracts with nonce 0 and no storage (deployed bare, never written since)
+}
+
+func newWorld() *world {
+	return &world{slots: map[felt.Felt][]felt.Felt{}, casmV2: map[felt.Felt]felt.Felt{}, casmV1: map[felt.Felt]felt.Felt{},
+		defs: map[felt.Felt]*core.SierraClass{}, casmNow: map[felt.Felt]felt.Felt{}}
 }
 
 type content struct {
@@ -121,6 +133,32 @@ func (w *world) apply(c *content) {
 		w.classes = append(w.classes, *h)
 	}
 	w.classes = append(w.classes, c.sierra...)
+	d := c.built.Update.StateDiff
+	for _, h := range c.sierra {
+		w.sierra = append(w.sierra, h)
+		w.casmNow[h] = *d.DeclaredV1Classes[h]
+	}
+	for _, m := range c.migrated {
+		w.migrated = append(w.migrated, m)
+		w.casmNow[m] = w.casmV2[m]
+	}
+	written := func(a felt.Felt) bool {
+		_, n := d.Nonces[a]
+		_, st := d.StorageDiffs[a]
+		return n || st
+	}
+	var plain []felt.Felt
+	for _, a := range w.plain {
+		if !written(a) {
+			plain = append(plain, a)
+		}
+	}
+	for _, a := range c.deploys {
+		if !written(a) {
+			plain = append(plain, a)
+		}
+	}
+	w.plain = plain
 }
 
 // genContent produces block content of the given shape for the twin's current head:
@@ -213,6 +251,8 @@ func (s *session) fullDiff(v string, d *core.StateDiff, classes map[felt.Felt]co
 		classes[h] = cls
 		c.sierra = append(c.sierra, h)
 		w.casmV2[h] = c2
+		w.casmV1[h] = c1
+		w.defs[h] = cls
 	}
 	cairo0 := d.DeclaredV0Classes[0]
 	for i := 0; i < 2; i++ {
@@ -473,7 +513,7 @@ func newSession(seed int64, idx int, beh []step) (*session, error) {
 	}
 	fk := faultkv.Wrap(memory.New())
 	s := &session{g: g, fk: fk, node: chainkit.NewNode(fk, newState), twin: chainkit.NewNode(nil, newState),
-		w:     &world{slots: map[felt.Felt][]felt.Felt{}, casmV2: map[felt.Felt]felt.Felt{}},
+		w:     newWorld(),
 		cache: map[string]*content{}, pending: map[string]*pendingBlock{}}
 	if prelude {
 		// two blocks below the model's chain: contracts and V1-declared Sierra classes exist
@@ -517,6 +557,8 @@ func TestBlockVerifyReplay(t *testing.T) {
 	shapeOffers := map[string]int{}
 	skipped := map[string]int{}
 	stages := map[string]int{}
+	inapStats := map[string]int{}
+	var observations []string
 	nsteps := 0
 	for bi, beh := range in.Behaviours {
 		idx := in.Start + bi
@@ -537,6 +579,7 @@ func TestBlockVerifyReplay(t *testing.T) {
 				outc    outcome
 				c       *content
 				accepts *content // content that becomes part of the chain when accepted
+				inapTarget string
 			)
 			if a.Name == "Restart" {
 				before, err := faultkv.Dump(s.fk)
@@ -642,6 +685,21 @@ func TestBlockVerifyReplay(t *testing.T) {
 				}
 				tag += ":" + a.Kind + ":" + a.Seal + ":" + a.Var
 				outc = s.run(o)
+			case "OfferInapplicable":
+				target := s.makeInapplicable(o, a.Kind)
+				if target == "" {
+					t.Fatalf("behaviour %d step %d: the specification offers an inapplicable diff of kind %q on a %s block at height %d, the replayer finds no target", idx, i, a.Kind, a.Var, a.H)
+				}
+				kept := o.B.Hash
+				if a.Seal == "resealed" {
+					rehash(t, o)
+				} else if h, _, err := core.BlockHash(o.B, o.U.StateDiff, chainkit.Network, nil, core.TrieBackend); err == nil && h.Equal(kept) {
+					inapStats["hash-neutral-moves"]++ // the commitment does not see the move (not a condition: only counted)
+				}
+				inapTarget = target
+				inapStats[a.Kind+"/"+backendName(s.node.NewState)]++
+				tag += ":" + a.Kind
+				outc = s.run(o)
 			case "OfferStaleClassHash":
 				// re-key one Sierra definition under another class hash, consistently in the diff
 				// and the class map, and let the producer hash the block
@@ -728,6 +786,30 @@ func TestBlockVerifyReplay(t *testing.T) {
 			shapeOffers[a.Name+"/"+a.Kind+"/"+a.Seal+"/"+a.Var+fmt.Sprintf("/h>0=%v", a.H > 0)]++
 			obs := vh.J{"outcome": outc}
 			// (1) accept / reject as the specification says
+			if a.Name == "OfferInapplicable" && outc.Kind == "accepted" && st.Res.Kind == "rejected" {
+				// the real code stored a block whose diff cannot be applied to the state it had. What it
+				// left behind (diagnosis; C02's verdict is the acceptance): can the block be reverted?
+				rev := s.revertProbe()
+				if rev == "" {
+					rev = "RevertHead of the stored block succeeds"
+				} else {
+					rev = "RevertHead of the stored block fails: " + rev
+				}
+				diverge(i, fmt.Sprintf("block-verify:accepted-inapplicable:%s:%s", a.Kind, a.V),
+					fmt.Sprintf("%s state, %s block of version %s at height %d: inapplicable state diff (%s of %s; block hash %s; declared root that of the honest block) "+
+						"was verified and stored; specification: rejected (%s). %s", backendName(s.node.NewState), a.Var, a.V, a.H, a.Kind, inapTarget,
+						map[string]string{"kept": "unchanged - the state-diff commitment does not distinguish the two sections", "resealed": "re-sealed"}[a.Seal], st.Res.Why, rev),
+					st.Res, vh.J{"outcome": outc, "revert": rev})
+				// go on from the state the specification is in
+				if err := s.restore(before); err != nil {
+					t.Fatal(err)
+				}
+				if msg := s.compareChain(st); msg != "" {
+					diverge(i, "block-verify:chain-mismatch:"+a.Name, msg, st.Chain, nil)
+					break steps
+				}
+				continue steps
+			}
 			if outc.Kind != st.Res.Kind {
 				key := fmt.Sprintf("block-verify:%s:%s", tag, a.V)
 				if st.Res.Kind == "accepted" || st.Res.Kind == "verified" {
@@ -772,6 +854,14 @@ func TestBlockVerifyReplay(t *testing.T) {
 					break steps
 				}
 				s.w.apply(accepts)
+				// a stored block must be revertible (C04 states and examines that; here only an observation)
+				if (idx+i)%3 == 0 {
+					inapStats["revert-probes"]++
+					if rev := s.revertProbe(); rev != "" && len(observations) < 5 {
+						observations = append(observations, fmt.Sprintf("block-verify:stored-block-not-revertible [newState=%v] %s(%s %s) at height %d: %s",
+							s.node.NewState, a.Name, a.V, a.Var, a.H, rev))
+					}
+				}
 			}
 			if msg := s.compareChain(st); msg != "" {
 				diverge(i, "block-verify:chain-mismatch:"+a.Name, msg, st.Chain, obs)
@@ -783,6 +873,11 @@ func TestBlockVerifyReplay(t *testing.T) {
 	if in.Concurrent {
 		concurrentVerify(out, seed, vh.J{"seed": seed, "start": in.Start, "behaviours": [][]step{}, "concurrent": true})
 	}
+	if prev, ok := out.Stats["observations"].([]string); ok {
+		observations = append(prev, observations...)
+	}
+	out.Stats["observations"] = observations
+	out.Stats["inapplicable_offers"] = inapStats
 	out.Done(len(in.Behaviours), nsteps)
 	out.Stats["tamper_cases_replayed"] = len(covered)
 	out.Stats["tamper_cases_without_target"] = len(skipped)
@@ -871,7 +966,7 @@ func concurrentVerify(out *vh.Result, seed int64, replay any) {
 	observations := []string{}
 	for _, newState := range []bool{false, true} {
 		s := &session{g: chainkit.NewGen(seed*7919 + 1), node: chainkit.NewNode(nil, newState), twin: chainkit.NewNode(nil, newState),
-			w: &world{slots: map[felt.Felt][]felt.Felt{}, casmV2: map[felt.Felt]felt.Felt{}}, cache: map[string]*content{}}
+			w: newWorld(), cache: map[string]*content{}}
 		var chain []*content
 		for i, v := range []string{"0.13.2", "0.13.4", "0.14.0", "0.14.0", "0.14.1", "0.14.1"} {
 			c, err := s.genContent(v, []string{"full", "emptydiff", "full", "bare", "full", "empty"}[i])
